@@ -51,6 +51,7 @@ func (r *RateLimitedTokenRequest) Marshal() []byte {
 }
 
 func (r *RateLimitedTokenRequest) Unmarshal(data []byte) bool {
+	r.raw = nil // the cached encoding belongs to the previous value
 	s := cryptobyte.String(data)
 
 	var tokenType uint16
